@@ -379,3 +379,54 @@ def on_some_arm(c):
 
 def on_none_arm(c):
     return c.is_discr and ((not c.negated and c.values == ["0"]) or (c.negated and c.values == ["1"]))
+
+
+def reachable_with_const_bools(body, start_bb, avoid=()):
+    """blocks reachable from start_bb when bool locals assigned constants on the way (and their copies / negations) decide
+    the switches that test them; other switches go both ways.  Path-sensitive on those bools (explores (block, env) pairs)."""
+    from .core import op_place, op_const
+
+    seen = set()
+    out = set()
+    work = [(start_bb, ())]
+    while work:
+        bb, envt = work.pop()
+        if (bb, envt) in seen or bb in avoid or len(seen) > 4000:
+            continue
+        seen.add((bb, envt))
+        out.add(bb)
+        env = dict(envt)
+        for st in body.blocks[bb]["stmts"]:
+            if st["k"] != "assign" or st["dst"]["p"] or body.local_ty(st["dst"]["l"]) != "bool":
+                continue
+            rv = st["rv"]
+            val = None
+            if rv["k"] == "use":
+                k = op_const(rv["ops"][0])
+                if k is not None and "bool" in k:
+                    val = k["bool"]
+                else:
+                    q = op_place(rv["ops"][0])
+                    if q is not None and not q["p"]:
+                        val = env.get(q["l"])
+            elif rv["k"] == "unop" and rv["op"] == "Not":
+                q = op_place(rv["ops"][0])
+                if q is not None and not q["p"] and env.get(q["l"]) is not None:
+                    val = not env[q["l"]]
+            if val is None:
+                env.pop(st["dst"]["l"], None)
+            else:
+                env[st["dst"]["l"]] = val
+        t = body.blocks[bb]["term"]
+        succs = list(body.succ[bb])
+        if t["k"] == "call" and t.get("dst") is not None and not t["dst"]["p"]:
+            env.pop(t["dst"]["l"], None)
+        if t["k"] == "switch":
+            p = op_place(t["discr"])
+            if p is not None and not p["p"] and body.local_ty(p["l"]) == "bool" and p["l"] in env:
+                zero = [tb for x, tb in t["targets"] if x == "0"]
+                one = [tb for x, tb in t["targets"] if x == "1"]
+                succs = (one or [t["otherwise"]]) if env[p["l"]] else (zero or succs)
+        for sc in succs:
+            work.append((sc, tuple(sorted(env.items()))))
+    return out
